@@ -196,6 +196,10 @@ class Verifier(Executor):
                         if mods is not None and k < len(pn) and pn[k] not in mods:
                             continue
                         obj_of_name(nm, root)
+        gc = getattr(self.cur_contract, "extra", {}).get("ghost_calls", {}) if self.cur_contract else {}
+        for sub in ast.walk(root):
+            if isinstance(sub, ast.Call) and isinstance(sub.func, ast.Name) and sub.func.id in gc:
+                names.add(gc[sub.func.id])
         return names, objs
 
     def havoc(self, st, names, objs, tag):
@@ -494,6 +498,8 @@ class Verifier(Executor):
             st.pc.append(zbool(truth(self.eval_spec(clause, st, {}))))
         if not self.prover.feasible(self.axioms + st.pc, timeout_ms=10000):
             raise VerifError("vacuous contract: requires is unsatisfiable")
+        for gname in set(con.extra.get("ghost_calls", {}).values()):
+            st.env[gname] = 0
         st.old = st.snapshot()
         st.old.old = st.old
         self.entry = st.old
